@@ -256,7 +256,7 @@ def install(w):
             r.heap["$exc_str"] = z3.Store(r.arr("$exc_str"), V.rid(e.t), mks(m))
             # A-DUCK 1: 'cannot commit/rollback - no transaction is active' is only ever the answer to COMMIT / ROLLBACK
             no_tx = z3.Or(z3.Contains(m, z3.StringVal("cannot rollback - no transaction is active")), z3.Contains(m, z3.StringVal("cannot commit - no transaction is active")))
-            r.assume(z3.Implies(z3.And(w.classes.isa(CLS(V.rid(e.t)), duckdb.TransactionException), no_tx), z3.And(z3.Not(DUCK_DML(sqlt)), DUCK_TXN_END(sqlt))))
+            r.assume(z3.Implies(z3.And(w.classes.isa(CLS(V.rid(e.t)), duckdb.TransactionException), no_tx), z3.And(z3.Not(DUCK_DML(sqlt)), DUCK_TXN_END(sqlt), z3.Not(z3.PrefixOf(z3.StringVal("SELECT "), sqlt)))))
             # a failed statement changes nothing in DuckDB (statement-level atomicity, A-DUCK)
             ex.raise_exc(r, e, node)
             st.assume(z3.Not(fails))
